@@ -124,6 +124,27 @@ LmCallOK(e) ==
   IN IF Z = Zero(e.sr) THEN WEq(e.sr, Zero(e.sr), e.res)
      ELSE WEq(e.sr, RDiv(Weight(e.sr, e.G, e.s), Z), e.res)
 
+(* LM.sample with a scripted draw (Generation.tla): every draw is made from the exact conditional distribution   *)
+(* (value and support), drawn tokens are appended in order, and the returned probability is Weight(ys) / Z       *)
+SampleOK(e) ==
+  LET Z == TreeSum(e.sr, e.G)[e.G.S]
+      n == Len(e.steps)
+      before(i) == SubSeq(e.ys, 1, i - 1)
+      tok(i) == e.steps[i][1]
+      pw(p) == PrefixWeight(e.sr, e.G, p)
+      cond(p, y) == IF y = e.eos THEN RDiv(Weight(e.sr, e.G, p), pw(p)) ELSE RDiv(pw(Append(p, y)), pw(p))
+      toks == SetOf(e.G.V) \cup {e.eos}
+  IN /\ Z # Zero(e.sr)
+     /\ n <= Len(e.ys) + 1
+     /\ \A i \in 1 .. n : pw(before(i)) # Zero(e.sr)
+     /\ \A i \in 1 .. n : /\ WEq(e.sr, cond(before(i), tok(i)), e.steps[i][2])
+                            /\ SetOf(e.steps[i][3]) = {y \in toks : cond(before(i), y) # Zero(e.sr)}
+                            /\ (tok(i) # e.eos => i <= Len(e.ys) /\ e.ys[i] = tok(i))
+                            /\ (tok(i) = e.eos => i = Len(e.ys) + 1)
+     /\ WEq(e.sr, RDiv(Weight(e.sr, e.G, e.ys), Z), e.res)
+(* conformance only (no listed property speaks of max_tokens): the loop generates at most max_tokens + 1 tokens *)
+SampleBoundOK(e) == e.bound = -1 \/ Len(e.ys) <= e.bound + 1
+
 (* expected_length: total weight-weighted string length = second component of the total weight of  *)
 (* the grammar lifted to the expectation semiring (rule weight <w, w * number of terminals in body>) *)
 LiftExpect(G) ==
@@ -157,7 +178,7 @@ TreesumRLOK(e) == \A i \in DOMAIN e.chart : e.chart[i][1] \in NTs(e.G) => WEq(e.
 
 InDomainIn(e) ==
   CASE e.op \in {"parse"} -> InsideExact(e.sr, e.G)
-    [] e.op \in {"prefix", "treesum", "treesum1", "pnext", "ntw", "lmcall", "explen", "pnextseq"} ->
+    [] e.op \in {"prefix", "treesum", "treesum1", "pnext", "ntw", "lmcall", "explen", "pnextseq", "sample"} ->
           InsideExact(e.sr, e.G) /\ TreeSumExact(e.sr, e.G)
     [] e.op \in {"transform", "derivative", "addeos"} -> InsideExact(e.sr, e.in)
     [] e.op \in {"prefixgrammar", "normalize"} -> InsideExact(e.sr, e.in) /\ TreeSumExact(e.sr, e.in)
@@ -192,6 +213,8 @@ Failed(e) ==
                          \cup (IF PNextSumOK(e) THEN {} ELSE {"sumsto1"})
     [] e.op = "ntw" -> IF NtwOK(e) THEN {} ELSE {"nexttoken"}
     [] e.op = "lmcall" -> IF LmCallOK(e) THEN {} ELSE {"chainrule"}
+    [] e.op = "sample" -> (IF SampleOK(e) THEN {} ELSE {"generation"})
+                          \cup (IF SampleBoundOK(e) THEN {} ELSE {"maxtokens-conformance"})
     [] e.op = "explen" -> IF ExpLenOK(e) THEN {} ELSE {"explen"}
     [] e.op = "treesumrl" -> IF TreesumRLOK(e) THEN {} ELSE {"treesum"}
     [] e.op = "pnextrl" -> IF PNextRLOK(e) THEN {} ELSE {"longcontext"}
